@@ -241,8 +241,11 @@ def inbound():
         ln = [n] if n < 128 else [(n & 127) | 128, n >> 7]
         return {"e": "b", "bytes": [first] + ln + body}
 
-    def rel(pid):
-        return {"e": "b", "bytes": [0x62, 2, pid >> 8, pid & 255]}
+    def rel(pid, form=0):
+        # the three legal shapes of a PUBREL: short, with a reason code (0x92 = the sender lost the exchange;
+        # still answered with PUBCOMP), with a reason code and an empty property block
+        tail = [[], [0x92], [0x00, 0x00], [0x92, 0x00], [0x00]][form]
+        return {"e": "b", "bytes": [0x62, 2 + len(tail), pid >> 8, pid & 255] + tail}
     for rx in (128, 200):
         steps = []
         for pid in range(1, 9):
@@ -253,8 +256,13 @@ def inbound():
         for pid in (2, 9, 2):                       # known, unknown, already released
             steps += [rel(pid), {"e": "poll"}, {"e": "poll"}]
         steps += [pub(2, 2, [22]), {"e": "poll"}, {"e": "poll"}]          # the identifier is free again: a new message
-        for pid in (1, 3, 4, 5, 6, 7, 8, 2):
-            steps += [rel(pid), {"e": "poll"}, {"e": "poll"}]
+        for k, pid in enumerate((1, 3, 4, 5, 6, 7, 8, 2)):
+            steps += [rel(pid, k % 5), {"e": "poll"}, {"e": "poll"}]
+        # every identifier must be free again afterwards: a new message under each is delivered
+        for pid in range(1, 9):
+            steps += [pub(2, pid, [40 + pid]), {"e": "poll"}, {"e": "poll"}]
+        for k, pid in enumerate(range(1, 9)):
+            steps += [rel(pid, (k + 1) % 5), {"e": "poll"}, {"e": "poll"}]
         # sizes: one byte below, at, and (QoS 0) exactly the receive buffer
         for q in (0, 1, 2):
             over = 2 + 3 + (2 if q else 0) + 1 + (1 if rx - 6 >= 128 else 0)
@@ -268,7 +276,37 @@ def inbound():
     return progs
 
 
-GROUPS = {"legality": legality, "shapes": shapes, "maxima": maxima, "inbound": inbound, "downgrade": downgrade}
+def replies():
+    """C20: requests at the top of the legal range -- correlation data of 65535 bytes (the reply's property block
+    then needs more than 16 bits of length), long response topics, and both together with a payload."""
+    progs = []
+
+    def vi(n):
+        out = []
+        while True:
+            d = n % 128
+            n //= 128
+            out.append(d | (128 if n else 0))
+            if not n:
+                return out
+
+    def request(q, pid, rt, cd, payload):
+        props = [8, len(rt) >> 8, len(rt) & 255] + rt + [9, len(cd) >> 8, len(cd) & 255] + cd
+        body = [0, 1, 0x69] + ([pid >> 8, pid & 255] if q else []) + vi(len(props)) + props + payload
+        return {"e": "b", "bytes": [0x30 | (q << 1)] + vi(len(body)) + body}
+    cases = [(0, 65535, 2, 1), (1, 65533, 9, 0), (2, 65534, 3, 2), (0, 65532, 40, 5), (1, 61000, 4500, 1)]
+    for k, (q, ncd, nrt, npay) in enumerate(cases):
+        cd = [(7 * i + k) % 251 for i in range(ncd)]
+        rt = [0x61 + (i % 26) for i in range(nrt)]
+        steps = [request(q, 5 + k, rt, cd, [9] * npay)] + POLLS
+        if q == 2:
+            steps += [{"e": "b", "bytes": [0x62, 2, 0, 5 + k]}] + POLLS
+        progs.append({"cfg": {"rx": 66200, "tx": 512, "ka": 0, "sei": 0, "client_id": b("rp%d" % k), "name": "replies-%d" % k},
+                      "steps": steps})
+    return progs
+
+
+GROUPS = {"replies": replies, "legality": legality, "shapes": shapes, "maxima": maxima, "inbound": inbound, "downgrade": downgrade}
 
 if __name__ == "__main__":
     import sys
